@@ -191,3 +191,10 @@ Example int_folding_instance :
   (lit_float "-0", lit_float "-3", lit_float "0.0") = (0, -3, 0)%float /\
   PrimFloat.eqb (PrimFloat.div 1 (lit_float "-0")) infinity = true.
 Proof. vm_compute. repeat split; reflexivity. Qed.
+
+(* the merged symbol list of scriptC: three code strings, in SYMBOL order (Y, X, Z — not the script's order Y, Z, X) *)
+Example scriptC_codes :
+  exists syms, parse_model_nocheck scriptC = POk syms /\
+    map scode (filter emits syms) = [Some "self._Y[t] = 2*self._X[t-1] + self._a[t]"; Some "self._X[t] = -self._Y[t]*self._Y[t]/4";
+                                     Some "self._Z[t] = max(self._W[t], self._Y[t]) - self._e[t]"].
+Proof. eexists. split; vm_compute; reflexivity. Qed.
